@@ -703,15 +703,28 @@ class FindTree(Bounded):
         ['src/a.c', 'src/gen/out/b.c', 'src/gen/c.txt', 'src/x y.c', 'inc/a.h'],
         ['a/a/a.c', 'a/b/a.c', 'b/a/a.c', 'a.c'],
         ['src/a.c', 'src.old/b.c', 'src-x/e.c', 'src/sub/c.h', 'src/sub/deep/d.h'],
+        # names that only *end* like a pattern, and directories that only differ from an excluded one by a suffix
+        ['test_a.c', 'mytest_a.c', 'contest_b.c', 'test_b.c', 'draft#1#', 'obj/x.c', 'objs/y.c', 'obj.c', 'sub/test_a.c', 'sub/obj/q.c'],
     ]
     PATTERNS = ['*.c', '**/*.c', 'a/*', 'a/**', '**/', 'src/**/*.c', '**/a/*.c', '*/', 'src/gen/out/**/', 'd/**/*', '**/?.c']
     EXCLUDES = [None, ['*.h'], ['sub/'], ['gen/', 'a.c'], ['a/']]
+    TYPES = [None, 'f', 'd', '*']
+    TYPED_PATTERNS = ['*', '**/*', '**/*.c', 'a/*', '**/', 'src/**']
+    TYPED_EXCLUDES = [None, ['sub'], ['obj', 'test_*.c'], ['a', '#*#'], ['gen/', 'a.c']]
 
     def native_inputs(self, case, alphabet, maxlen, rng, extra=0):
         for ti in range(len(self.TREES)):
             for pat in self.PATTERNS:
                 for exc in self.EXCLUDES:
                     yield {'tree': ti, 'pattern': pat, 'exclude': exc}
+        # an explicit type applies to every glob of the search (include and exclude alike); basename globs are anchored
+        for ti in range(len(self.TREES)):
+            for ty in self.TYPES:
+                for pat in self.TYPED_PATTERNS:
+                    for exc in self.TYPED_EXCLUDES:
+                        if ty is None and ti < 4 and exc in self.EXCLUDES:
+                            continue
+                        yield {'tree': ti, 'pattern': pat, 'exclude': exc, 'type': ty}
         for ti in range(len(self.TREES)):
             yield {'tree': ti, 'pattern': ['src/*.c', 'src/gen/out/**/'], 'exclude': None}
             yield {'tree': ti, 'pattern': ['a/*.c', 'd/**/*.c'], 'exclude': ['e/']}
@@ -754,7 +767,13 @@ class FindTree(Bounded):
             class Env:
                 base_dirs = {Root.srcdir: Path(tmp + '/', Root.absolute), Root.builddir: Path(tmp + '/b/', Root.absolute)}
             try:
-                got = F.find(Env, pats, exclude=raw['exclude'])
+                ty = raw.get('type')
+                got = F.find(Env, pats, type=ty, exclude=raw['exclude'])
+            except ValueError as e:
+                # type 'f' together with a directory glob (trailing slash) is contradictory and is rejected
+                if ty == 'f' and any(g.endswith('/') for g in pats + (raw['exclude'] or [])):
+                    return True
+                return self.fail(case, raw, 'find_completes', error=repr(e))
             except Exception as e:      # noqa
                 return self.fail(case, raw, 'find_completes', error=repr(e))
             got_set = {(p.suffix, p.directory) for p in got}
@@ -771,12 +790,16 @@ class FindTree(Bounded):
             excl = raw['exclude'] or []
 
 
+            def kind_ok(slash, isdir):
+                # an explicit type decides the kind for every glob; otherwise the trailing slash does
+                if ty is None:
+                    return slash == isdir
+                return ty == '*' or (ty == 'd') == isdir
+
             def name_excluded(name, isdir):
                 for e in excl:
                     pat = e.rstrip('/')
-                    if e.endswith('/') and not isdir:
-                        continue
-                    if not e.endswith('/') and isdir:
+                    if not kind_ok(e.endswith('/'), isdir):
                         continue
                     if _fnmatch.fnmatchcase(name, pat):
                         return True
@@ -791,7 +814,7 @@ class FindTree(Bounded):
                         continue
                     want_dir = pat.endswith('/')
                     bits = [b for b in pat.rstrip('/').split('/')]
-                    if want_dir != isdir:
+                    if not kind_ok(want_dir, isdir):
                         continue
                     if ref_match(bits, comps):
                         want.add((sfx, isdir))
@@ -803,6 +826,43 @@ class FindTree(Bounded):
         return True
 
 
+class NameGlobReference(Bounded):
+    """Real NameGlob (the "simple" globs of extra / exclude / find_exclude) against fnmatch on the whole basename:
+    anchored at both ends, and of the kind given by the explicit type, else by the trailing slash."""
+    target = 'bfg9000/glob.py::NameGlob.match'
+    properties = ('C11',)
+    reason = 'compiled regular expression object (re.compile(fnmatch.translate(..))) outside the subset; exhaustive over a small pattern/name table'
+    PATS = ['test_*.c', '*.c', '#*#', '*~', '.#*', 'a?', '[ab]x', '[!a]x', 'obj', 'README*', '*']
+    NAMES = ['test_a.c', 'mytest_a.c', 'test_a.cc', 'x.c', '#a#', 'draft#1#', '#a#b', 'a~', 'a~b', '.#a', 'x.#a', 'a1', 'ba1', 'a12',
+             'ax', 'bx', 'cx', 'axx', 'xax', 'obj', 'objs', 'xobj', 'README', 'README.md', 'OLD_README']
+
+    def native_inputs(self, case, alphabet, maxlen, rng, extra=0):
+        for pat in self.PATS:
+            for slash in ('', '/'):
+                for ty in (None, 'f', 'd', '*'):
+                    yield {'pattern': pat + slash, 'type': ty}
+
+    def native_check(self, case, raw):
+        from bfg9000.path import Path, Root
+        pat, ty = raw['pattern'], raw['type']
+        slash = pat.endswith('/')
+        try:
+            g = G.NameGlob(pat, ty)
+        except ValueError:
+            return True if (ty == 'f' and slash) else self.fail(case, raw, 'glob_is_accepted')
+        for name in self.NAMES:
+            for isdir in (False, True):
+                for parent in ('', 'sub/', 'test_a.c/'):
+                    p = Path(parent + name + ('/' if isdir else ''), Root.srcdir)
+                    kind = (slash == isdir) if ty is None else (ty == '*' or (ty == 'd') == isdir)
+                    want = kind and _fnmatch.fnmatchcase(name, pat.rstrip('/'))
+                    got = g.match(p)
+                    if got is not want:
+                        return self.fail(case, raw, 'matches_iff_whole_basename_and_kind', path=p.suffix, directory=isdir,
+                                         got=repr(got), expected=want)
+        return True
+
+
 def registry():
     return [MatchGlobRun(), MatchGlobRuns(), PathSplit(), MatchBase(), Match(), IsGlob(), FileFilterMatch(), GlobReference(),
-            FindTree()]
+            NameGlobReference(), FindTree()]
